@@ -53,7 +53,7 @@ From Coq Require Import List. Import ListNotations.
 Lemma opaque_reaches_nothing parse_float regex_match root x r t i s l : nav_allf parse_float regex_match root (x :: r) (l, VOpaque t i s) = [].
 Proof.
   cbn [nav_allf]. assert (E : nav1f parse_float regex_match root x (l, VOpaque t i s) = []); [|rewrite E; reflexivity].
-  destruct x as [[k|k]|i0|i0 o lit|i0|d|y|i0 g0 a o b g1 lit|neg g0 gn i0 g1|g0' d']; cbn [nav1f nav1r navf navp fst snd]; try reflexivity.
+  destruct x as [[k|k]|i0|i0 o lit|i0|d|y|i0 g0 a o b g1 lit|neg g0 gn i0 g1|g0' d'|t']; cbn [nav1f nav1r navf navp fst snd]; try reflexivity.
   - destruct k; reflexivity.
   - destruct neg; reflexivity.
 Qed.
